@@ -1,4 +1,5 @@
 import DendroModel.Model.C02
+import DendroModel.Model.C02Nexml
 open DendroModel DendroModel.C02
 
 def str? (s : String) : Option (Option Str) :=
@@ -68,6 +69,95 @@ def pairs? : List Str → Option (List (Str × Str))
 def showTok (t : TokE) : List String :=
   t.cm.map (fun c => "C:" ++ hexS c) ++ [(if t.quoted then "Q:" else "P:") ++ hexS t.text]
 
+/-- `n` records `name rooting weight <tree…>` -/
+def namedTrees? : Nat → List String → Option (List (Str × WT))
+  | 0, [] => some []
+  | 0, _ => none
+  | k + 1, name :: rooting :: weight :: tr =>
+    match str? name, rooting.toNat?, str? weight, tree? (tr.length + 1) tr with
+    | some (some nm), some r, some w, some (t, more) => (namedTrees? k more).map ((nm, r, w, t) :: ·)
+    | _, _, _, _ => none
+  | _ + 1, _ => none
+
+/-- `n` records `name|- rooting <tree…>` (NeXML writer input) -/
+def xwTrees? : Nat → List String → Option (List XW)
+  | 0, [] => some []
+  | 0, _ => none
+  | k + 1, name :: rooting :: tr =>
+    match str? name, rooting.toNat?, tree? (tr.length + 1) tr with
+    | some nm, some r, some (t, more) => (xwTrees? k more).map ((nm, r, t) :: ·)
+    | _, _, _ => none
+  | _ + 1, _ => none
+
+def natO? (s : String) : Option (Option Nat) := if s == "-" then some none else s.toNat?.map some
+
+def xnodes? : Nat → List String → Option (List XNode × List String)
+  | 0, r => some ([], r)
+  | k + 1, id :: lb :: otu :: root :: r =>
+    match id.toNat?, str? lb, natO? otu, xnodes? k r with
+    | some i, some l, some o, some (ns, r') => some (⟨i, l, o, root == "1"⟩ :: ns, r')
+    | _, _, _, _ => none
+  | _ + 1, _ => none
+
+def xedges? : Nat → List String → Option (List XEdge × List String)
+  | 0, r => some ([], r)
+  | k + 1, id :: src :: tgt :: ln :: r =>
+    match id.toNat?, natO? src, tgt.toNat?, str? ln, xedges? k r with
+    | some i, some s, some t, some l, some (es, r') => some (⟨i, s, t, l⟩ :: es, r')
+    | _, _, _, _, _ => none
+  | _ + 1, _ => none
+
+def xtrees? : Nat → List String → Option (List XTree × List String)
+  | 0, r => some ([], r)
+  | k + 1, id :: lb :: nn :: r =>
+    match id.toNat?, str? lb, nn.toNat? with
+    | some i, some l, some nn =>
+      match xnodes? nn r with
+      | some (ns, ne :: r1) =>
+        match ne.toNat? with
+        | some ne =>
+          match xedges? ne r1 with
+          | some (es, r2) => (xtrees? k r2).map (fun p => (⟨i, l, ns, es⟩ :: p.1, p.2))
+          | none => none
+        | none => none
+      | _ => none
+    | _, _, _ => none
+  | _ + 1, _ => none
+
+def xotus? : Nat → List String → Option (List (Nat × Option Str) × List String)
+  | 0, r => some ([], r)
+  | k + 1, id :: lb :: r =>
+    match id.toNat?, str? lb, xotus? k r with
+    | some i, some l, some (os, r') => some ((i, l) :: os, r')
+    | _, _, _ => none
+  | _ + 1, _ => none
+
+/-- `otusId k (id label)* treesId n (tree)*` -/
+def xdoc? : List String → Option XDoc
+  | oid :: k :: r =>
+    match oid.toNat?, k.toNat? with
+    | some oid, some k =>
+      match xotus? k r with
+      | some (os, tid :: n :: r1) =>
+        match tid.toNat?, n.toNat? with
+        | some tid, some n =>
+          match xtrees? n r1 with
+          | some (ts, []) => some ⟨oid, os, tid, ts⟩
+          | _ => none
+        | _, _ => none
+      | _ => none
+    | _, _ => none
+  | _ => none
+
+/-- a TRANSLATE table handed over either literally (`tok,label,…`) or as the default table of a namespace given by its
+    accession indices in member order (`@i,j,…` with the labels `ns`) -/
+def table? (ns : List Str) (s : String) : Option (List (Str × Str)) :=
+  if s.startsWith "@" then
+    match ((String.ofList (s.toList.drop 1)).splitOn ",").mapM String.toNat? with
+    | some accs => if accs.length == ns.length then some (defaultTable (ns.zip accs)) else none
+    | none => none
+  else (strList? s).bind pairs?
+
 def handle (ws : List String) : String :=
   match ws with
   | ["escape", ps, qu, which, lab] =>
@@ -82,17 +172,39 @@ def handle (ws : List String) : String :=
     -- per tree: name rooting weight <tree…>
     match wopts? wo, (strList? tokmap).bind pairs?, ntrees.toNat? with
     | some o, some tm, some n =>
-      let rec go : Nat → List String → Option (List (Str × WT))
-        | 0, [] => some []
-        | 0, _ => none
-        | k + 1, name :: rooting :: weight :: tr =>
-          match str? name, rooting.toNat?, str? weight, tree? (tr.length + 1) tr with
-          | some (some nm), some r, some w, some (t, more) => (go k more).map ((nm, r, w, t) :: ·)
-          | _, _, _, _ => none
-        | _ + 1, _ => none
-      match go n rest with
+      match namedTrees? n rest with
       | some trees => hexS (treesBlockText o tm trees)
       | none => "bad-op"
+    | _, _, _ => "bad-op"
+  | ["nexus-doc", ro, cm, attached, text] =>
+    -- attached: `*` = none, else the caller's namespace
+    match ropts? ro cm, (if attached == "*" then some none else (strList? attached).map some), str? text with
+    | some o, some att, some (some s) => renderDoc (nexusDoc o att s)
+    | _, _, _ => "bad-op"
+  | "nexus-doc-text" :: wo :: ns :: tokmap :: ntrees :: rest =>
+    match wopts? wo, strList? ns, (strList? ns).bind (fun l => table? l tokmap), ntrees.toNat? with
+    | some o, some ns, some tm, some n =>
+      match namedTrees? n rest with
+      | some trees => hexS (nexusDocText o ns tm trees)
+      | none => "bad-op"
+    | _, _, _, _ => "bad-op"
+  | "nexml-write" :: ns :: ntrees :: rest =>
+    match strList? ns, ntrees.toNat? with
+    | some ns, some n =>
+      match xwTrees? n rest with
+      | some trees => renderXDoc (nxWrite ns trees)
+      | none => "bad-op"
+    | _, _ => "bad-op"
+  | "nexml-rt" :: cm :: ns :: ntrees :: rest =>
+    match caseMap? cm, strList? ns, ntrees.toNat? with
+    | some cf, some ns, some n =>
+      match xwTrees? n rest with
+      | some trees => renderDoc (nxRead cf none (nxWrite ns trees))
+      | none => "bad-op"
+    | _, _, _ => "bad-op"
+  | "nexml-read" :: cm :: attached :: rest =>
+    match caseMap? cm, (if attached == "*" then some none else (strList? attached).map some), xdoc? rest with
+    | some cf, some att, some d => renderDoc (nxRead cf att d)
     | _, _, _ => "bad-op"
   | ["taxlabels", ps, uu, ns] =>
     match strList? ns with
